@@ -228,12 +228,16 @@ func (p *Prog) statusFlowCheck(fn *ssa.Function, c *ssa.Call, coll *ssa.Paramete
 					}
 				}
 				// an existence shortcut (found == nil) is R-EARLYEXIT's business
+				// (the test may be a hoisted flag: the facts of the edge say
+				// whether it implies a nil collector)
 				shortcut := -1
-				if bo, ok := resolve(x.Cond, env).(*ssa.BinOp); ok && bo.X == ssa.Value(coll) && isNilConst(bo.Y) {
-					if bo.Op == token.EQL {
-						shortcut = 0
-					} else if bo.Op == token.NEQ {
-						shortcut = 1
+				for si := range b.Succs {
+					for _, f := range appendFact(nil, Fact{x.Cond, si == 0}, 0) {
+						if bo, ok := f.Cond.(*ssa.BinOp); ok && bo.X == ssa.Value(coll) && isNilConst(bo.Y) {
+							if (bo.Op == token.EQL) == f.Truth {
+								shortcut = si
+							}
+						}
 					}
 				}
 				for si, s := range b.Succs {
